@@ -177,7 +177,10 @@ def detect_flags(entry='grid_trajectory'):
     fixz = probe(cz, [[1.0]], lambda o: all(x == x for x in o['ints'][0]))
     cp = json.loads((VERIF / 'corpus/C04/fc04c_pole_on_longitude_line.json').read_text())['case']
     clipd = probe(cp, [[1.0]], lambda o: all(x == x for x in o['ints'][0]))
-    return {'clamp': clamp, 'fix3': fix3, 'fixdl': fixdl, 'fixz': fixz, 'clipd': clipd}
+    ce = json.loads((VERIF / 'corpus/C04/fc04e_crossing_segment_ending_on_a_pole.json').read_text())['case']
+    fixe = probe(dict(ce, alts=None, times=None, galt=None, gtime=None), [[1.0] * (len(ce['lats']) - 1)],
+                 lambda o: all(x == x for x in o['ints'][0]))
+    return {'clamp': clamp, 'fix3': fix3, 'fixdl': fixdl, 'fixz': fixz, 'clipd': clipd, 'fixe': fixe}
 
 
 # ----------------------------------------------------------------------------------------------
@@ -195,7 +198,7 @@ def _fl(v):
 def geometry_expr(case, states, flags):
     pts = '[' + '; '.join(f'({to_coq(float(a))}, {to_coq(float(b))})' for a, b in zip(case['lats'], case['lons'])) + ']'
     st = '[' + '; '.join(_fl(s) for s in states) + ']'
-    return (f"@run_geometry FNum {to_coq(flags['clamp'])} {to_coq(flags['fixdl'])} {_fl(case['glat'])} "
+    return (f"@run_geometry FNum {to_coq(flags['clamp'])} {to_coq(flags['fixdl'])} {to_coq(flags['fixe'])} {_fl(case['glat'])} "
             f"{_fl(case['glon'])} {_fl(case['galt'] or [])} {_fl(case['gtime'] or [])} {pts} "
             f"{_opt(case['alts'])} {_opt(case['times'])} {st}")
 
